@@ -360,6 +360,12 @@ func (fr *Frame) tr(e ast.Expr, env *Env) Val {
 		if v, ok := fr.ghost[x.Name]; ok && !env.noLocals {
 			return v
 		}
+		if x.Name == "itermap" && env.loopOrd > 0 {
+			// the map a "for k, v := range <expr>" loop ranges over (useful when <expr> is a call and has no name)
+			if it, ok := fr.loopIterInfo[env.loopOrd]; ok && it.mt != nil {
+				return Val{it.ref, it.mt}
+			}
+		}
 		if x.Name == "iterpos" && env.loopOrd > 0 {
 			if t, ok := env.st.heap[fr.loopIter[env.loopOrd]]; ok {
 				return Val{t, types.Typ[types.Int]}
@@ -383,6 +389,15 @@ func (fr *Frame) tr(e ast.Expr, env *Env) Val {
 			for _, p := range fr.fn.Params {
 				if p.Name() == x.Name {
 					return fr.vals[p]
+				}
+			}
+			if fv, ok := fr.freeNames[x.Name]; ok {
+				if a, ok := fr.addrs[fv]; ok {
+					et := fv.Type().(*types.Pointer).Elem()
+					return Val{fr.load0(env.st, a, token.NoPos).T, et}
+				}
+				if v, ok := fr.vals[fv]; ok {
+					return v
 				}
 			}
 			// a local that has not been declared yet on this path (early return): an arbitrary value of its type
